@@ -233,6 +233,9 @@ type filterArg struct {
 	BlockHash *common.Hash     `json:"blockHash"`
 }
 
+var getLogsErrors = []string{"sim: getLogs failed", "query returned more than 10000 results", "read limit exceeded", "Log response size exceeded",
+	"response size exceeded", "block range is too wide", "request timed out", "rate limit exceeded", "internal error"}
+
 func (w *world) parseBlockArg(s string, def uint64) (uint64, error) {
 	switch s {
 	case "":
@@ -270,7 +273,9 @@ func (s *ethService) GetLogs(crit filterArg) ([]ethtypes.Log, error) {
 		w.reqLog = append(w.reqLog, fmt.Sprintf("req#%d c%d eth_getLogs %s -> ERROR reply", w.reqCount, s.c.id, detail))
 		w.fired = append(w.fired, "getlogs-error-reply")
 		w.endInvocation("eth_getLogs", false)
-		return nil, errors.New("sim: getLogs failed")
+		// what providers really answer: a client that reacts to particular error texts must still
+		// deliver every block (the text is a function of the request count: replayable)
+		return nil, errors.New(getLogsErrors[w.getLogsCount%len(getLogsErrors)])
 	}
 	if err1 != nil || err2 != nil || crit.BlockHash != nil {
 		w.reqLog = append(w.reqLog, fmt.Sprintf("req#%d c%d eth_getLogs unsupported filter", w.reqCount, s.c.id))
